@@ -119,6 +119,37 @@ def make_tokens(max_len):
     return body
 
 
+OTHERS = {'valid': "other = 1\nprint(other)\n", 'broken': "other = (\n", 'blank': ""}
+
+
+def make_entries(max_len):
+    """The same judgement through every way a text reaches the parser: verify() on the loaded submission,
+    verify(text) given explicitly while another submission (valid, broken or blank) is loaded, set_source(text)."""
+    entries = ['verify()', 'verify(text)|valid', 'verify(text)|broken', 'verify(text)|blank', 'set_source(text)']
+
+    def body(ctx):
+        entry = entries[ctx.choose(len(entries), 'entry')]
+        L = ctx.choose(max_len + 1, 'len')
+        text = ''.join(TOK[ctx.choose(len(TOK), 't%d' % i)] for i in range(L))
+        ctx.observe(entry + text)
+        ctx.set_sample({'entry': entry, 'text': text})
+        cmds.clear_report()
+        if entry == 'verify()':
+            cmds.contextualize_report(text)
+            judge(ctx, text, where=entry)
+        elif entry == 'set_source(text)':
+            from pedal.source import set_source
+            cmds.contextualize_report(OTHERS['valid'])
+            # set_source verifies on its own: the judgement is made on what that call reported
+            judge(ctx, text, where=entry, do_verify=lambda: set_source(text) or MAIN_REPORT['source']['success'])
+        else:
+            cmds.contextualize_report(OTHERS[entry.split('|')[1]])
+            judge(ctx, text, where=entry.split('|')[0], do_verify=lambda: verify(text))
+        for sig, det in ctx.fails:
+            sig.setdefault('entry', entry)
+    return body
+
+
 def _edits(seed, double):
     out = []
     for i in range(len(seed)):
@@ -282,6 +313,8 @@ def phases(tier):
     return [
         Phase('token-strings', make_tokens(4 if tier == 'quick' else 5), setup=_setup,
               describe='every string of <=N tokens over the alphabet'),
+        Phase('entry-points', make_entries(3), setup=_setup,
+              describe='token strings of <=3 through verify(), verify(text) with another submission loaded, set_source(text)'),
         Phase('seed-edits', make_edits(tier), setup=_setup,
               describe='every single deletion/insertion (and double deletions of the shortest seeds)'),
         Phase('sections', make_sections(tier), setup=_setup,
